@@ -61,7 +61,7 @@ def check_case(ctx, case):
         ctx.violation('negative-variance', 'min variance %r (sill+nugget %r)' % (float(np.nanmin(s0)), ssum), case)
     # shift
     c = float(ctx.rng.choice([5.0, -250.0, 1e4]))
-    z1, s1, _, _ = krig.run_transform(krig.build(dict(case, values=(values + c).tolist())), targets)
+    z1, s1, _, _ = krig.run_transform(krig.build(dict(case, values=(values + c).tolist(), value_dtype='float64')), targets)
     reg('shift')
     if not rel_ok(z1, z0 + c, max(scale_v, abs(c))) or not rel_ok(s1, s0, ssum):
         ctx.violation('shift', 'adding %r to the observations: estimates %r -> %r, variances %r -> %r' % (
@@ -69,7 +69,7 @@ def check_case(ctx, case):
     # scale
     k = float(ctx.rng.choice([2.0, -3.0, 0.1, 10.0]))
     vd2 = dict(vd, sill=vd['sill'] * k * k, nugget=vd['nugget'] * k * k)
-    z2, s2, _, _ = krig.run_transform(krig.build(dict(case, values=(values * k).tolist(), vario=vd2)), targets)
+    z2, s2, _, _ = krig.run_transform(krig.build(dict(case, values=(values * k).tolist(), vario=vd2, value_dtype='float64')), targets)
     reg('scale')
     if not rel_ok(z2, z0 * k, scale_v * abs(k)) or not rel_ok(s2, s0 * k * k, ssum * k * k):
         ctx.violation('scale', 'scaling observations by %r (sill, nugget by k^2): estimates %r -> %r, variances %r -> %r'
@@ -79,7 +79,7 @@ def check_case(ctx, case):
     k = float(ctx.rng.choice([2.0 ** -13, 2.0 ** -16, 2.0 ** -20, 2.0 ** 14]))
     vd5 = dict(vd, sill=vd['sill'] * k * k, nugget=vd['nugget'] * k * k)
     try:
-        z5, s5, _, _ = krig.run_transform(krig.build(dict(case, values=(values * k).tolist(), vario=vd5)), targets)
+        z5, s5, _, _ = krig.run_transform(krig.build(dict(case, values=(values * k).tolist(), vario=vd5, value_dtype='float64')), targets)
     except (ValueError, AttributeError) as e:
         z5 = None
         ctx.reject('scale-extreme:' + type(e).__name__)
@@ -91,7 +91,7 @@ def check_case(ctx, case):
                                                         (s5 / (k * k)).tolist(), s0.tolist()), case)
     # constant field
     cst = float(ctx.rng.choice([0.0, 3.25, -17.0]))
-    z3, s3, _, _ = krig.run_transform(krig.build(dict(case, values=[cst] * len(values))), targets)
+    z3, s3, _, _ = krig.run_transform(krig.build(dict(case, values=[cst] * len(values), value_dtype='float64')), targets)
     reg('constant')
     if not rel_ok(z3, np.where(est, cst, np.nan), max(1.0, abs(cst))) or not rel_ok(s3, s0, ssum):
         ctx.violation('constant', 'constant field %r is not reproduced: %r' % (cst, z3.tolist()), case)
